@@ -147,9 +147,10 @@ def httpExpect (toks : List String) : String × List Int × Nat :=
   let method := if bodyKind == "none" then "GET" else "POST"
   let atts := (List.range n).foldl (fun acc i => acc ++ s!" a{i}={method},url,hdr,ok") ""
   let merged := merge (mkCtx (kvOf toks "rctx") true) (execCtx (mkCtx (kvOf toks "ectx") false) stack.ctxCreating) 30
-  -- lower bounds on the gaps between arrivals at the server: the scheduled retry delay; 15 of the 20 ms hedge delay (the first
-  -- arrival is stamped after its connection was set up)
-  let gaps := if hedged then [15] else (List.range (n - 1)).map (fun i => (scheduledDelay (script i)) / 1000000)
+  -- lower bounds on the gaps between arrivals at the server: the scheduled retry delay (an attempt's arrival precedes its
+  -- response, which precedes the delay). A hedge's distance from the first attempt is C09's subject: no bound here, because the
+  -- first arrival is stamped after connection set-up, which has no causal relation to the hedge timer
+  let gaps := if hedged then [0] else (List.range (n - 1)).map (fun i => (scheduledDelay (script i)) / 1000000)
   (s!"att={n} fin={finStr} rbody={if hasResp then "ok" else "-"}{atts} ctx={view merged ","}", gaps, n)
 
 def grpcExpect (toks : List String) : String :=
